@@ -422,6 +422,30 @@ fn c01(ctx: &Ctx, col: &mut Collector, extra: &mut serde_json::Value) {
         slot.end();
     });
     col.merge(c);
+    // (h) "of any length": frames of every class followed by a long tail (1 KiB ... 1 MiB). The tail
+    // must neither change the result nor cost memory: the allocation limit is the same small constant
+    let classes_h = gen::all_classes();
+    let c = par_units(ctx, "c01-long", ctx.q(256, 4096), |i, r, col, slot| {
+        let spec = &classes_h[(i as usize * 7919) % classes_h.len()];
+        let mut m = spec.make(r);
+        let tail = *r.pick(&[1usize << 10, 1 << 14, 1 << 16, 1 << 20]);
+        let old = m.len();
+        m.resize(old + tail, 0);
+        match r.below(3) {
+            0 => {}
+            1 => r.fill(&mut m[old..]),
+            _ => {
+                for (k, b) in m[old..].iter_mut().enumerate() {
+                    *b = if k % 14 == 0 { 0x8D } else { 0xFF };
+                }
+            }
+        }
+        slot.begin(|| format!("class {spec:?} with a tail of {tail} bytes"));
+        obs::judge(&ctx.g, col, &m);
+        slot.end();
+        col.count("long_inputs", 1);
+    });
+    col.merge(c);
     // (g) identification payloads made of one repeated character (eight spaces, eight '#', ...)
     let c = par_units(ctx, "c01-ident", 64, |i, r, col, _| {
         for carrier in 0..4u64 {
